@@ -169,6 +169,18 @@ def search(ctx, disagreements, proof_info):
 
 
 F_WD0 = "C19-watchdog-reset-delay-0"
+F_I2C = "C19-i2c-busy-command-glitch"
+
+
+def i2c_busy_witness():
+    """load := 3; START; wait; WRITE 0x55; 11 cycles later - the cycle of the WRITE0 tick - a second command write while
+    the core is busy.  Before 86eb66e the strobe advanced the bit FSM off the clk2x grid: SCL low for one cycle, then SDA
+    rising with SCL high (a STOP condition in the middle of the byte)."""
+    idle = (0, 0, 0, 0, 0, 1, 1)
+    w = lambda adr0, dat: (1, 1, 1, adr0, dat, 1, 1)
+    return ([w(1, 3)] + [idle] * 2 + [w(0, L.I2C_S)] + [idle] * 12 + [w(0, L.I2C_W | 0x55)] + [idle] * 11 +
+            [w(0, L.I2C_W | 0x55)] + [idle] * 14)
+
 
 
 def probes(ctx):
@@ -188,6 +200,9 @@ def probes(ctx):
         n.tick()
     out.append((F_WD0, bool(highs), ("Watchdog(reset_delay=0): crg_rst high in cycles %s without a timeout in reset mode" % highs)
                 if highs else "witness passes"))
+    # fixed 86eb66e: command written while the I2C machine is busy
+    r = replay_with_monitor(L.I2cMasterInst(3), i2c_busy_witness())
+    out.append((F_I2C, r is not None, ("I2CMaster: command written while busy; cycle %d: %s" % r) if r else "witness passes"))
     # notes (outside the property's quantifier, DESIGN 7.C19 / 8.3): kept visible in the evidence
     ctx.cov.notes.append("SPIMaster: length = 0 or length > 2^bits_for(data_width-1) never leaves RUN; clk_divider < 2 never "
                          "leaves START/STOP; lowering clk_divider at run time below the running counter stalls the clock "
@@ -195,9 +210,10 @@ def probes(ctx):
                          "constant divider >= 2)")
     ctx.cov.notes.append("RS232PHYTX with tuning word 0 never leaves RUN (baud rate 0, outside the range); RS232PHYRX does "
                          "not check the start bit at its sample point; equal-rate loopback needs >= 4 cycles per bit")
-    ctx.cov.notes.append("I2CMasterMachine: a command strobe while not idle is not executed but advances the FSM by one "
-                         "step off the clk2x grid (bit sequence still legal, one SCL phase shortened); SCL and SDA change "
-                         "in the same edge in WRITE0/READ1/WRITEACK1 (SCL falling) - I2CMaster's pad stage holds SDA one cycle")
+    ctx.cov.notes.append("I2CMaster: cg.load = 0 (the reset value of the divider) ticks every cycle, SCL then toggles every "
+                         "sys cycle and the SDA hold stage releases data changes while SCL is high - the divider range is "
+                         "load >= 1 (hypothesis of i2c_pad_legal); a command written while busy is ignored (since 86eb66e "
+                         "also by the bit FSM) but a data write while busy still replaces the byte being shifted")
     return out
 
 
